@@ -281,7 +281,7 @@ func runOneRace(c rcCase) (sx.V, sx.V, rcCase) {
 				spawn(c.N/2+1, func(g int) { brokerOps(g) })
 			}
 			time.Sleep(time.Duration(5+c.Seed%40) * time.Millisecond)
-			spawn(2, func(int) { rpcc.Close() })
+			spawn(c.N, func(int) { rpcc.Close() }) // many closers at once: the close-once guards are what is under test
 			spawn(3, func(int) { cl.Kill() })
 			wg.Wait()
 			fails = 0 // operations cut short by the shutdown fail legitimately
